@@ -293,7 +293,7 @@ def retention_rule(check, repo, targets=None, floor=12):
                ("Crypto.Cipher._mode_ccm", "CcmMode", ("_cache", "nonce", "_key")),
                ("Crypto.Cipher._mode_ocb", "OcbMode", ("_cache_A", "_cache_P", "nonce")),
                ("Crypto.Cipher._mode_eax", "EaxMode", ("nonce",)),
-               ("Crypto.Cipher._mode_siv", "SivMode", ("nonce",)),
+               ("Crypto.Cipher._mode_siv", "SivMode", ("nonce", "_subkey_cipher")),
                ("Crypto.Protocol.KDF", "_S2V", ("_last_string", "_key")),
                ("Crypto.Hash.CMAC", "CMAC", ("_key",)),
                ("Crypto.Cipher._mode_cbc", "CbcMode", ("iv", "IV")),
